@@ -249,7 +249,18 @@ def _empty_partition(pins, L=None):
     depth = 0
     prev = None
     need = 0
-    for c in pins:
+    pins = list(pins)
+    k = 0
+    while k < len(pins):
+        c = pins[k]
+        k += 1
+        if c in ('"', '|') and prev != 'o' and k + 1 < len(pins) \
+                and pins[k] == c and pins[k + 1] != c:
+            # an empty literal / quoted symbol that is certainly closed
+            # (the next character is known and is not another quote)
+            k += 1
+            prev = 'lit'
+            continue
         if c in ('"', '|', ';'):
             if prev == 'o' and c != ';':
                 return True
